@@ -83,6 +83,10 @@ FIELDS = [{"id": 1, "name": "x", "type": "long", "required": False}]
 FIELDS_B = [{"id": 1, "name": "x", "type": "long", "required": False}, {"id": 2, "name": "y", "type": "string", "required": False}]
 
 
+# process-wide configurations the create / open races are also run under (names of harness/lib/procconf.py NAMED)
+CONFS = ["debug", "app-root-debug", "mod-debug", "debug+env"]
+
+
 def yield_filter(op: str, path: str, phase: tuple) -> bool:
     pcs = P.path_class(path)
     if op in ("LockTry", "LockFlock", "LockRel", "Fence", "Sleep"):
@@ -146,7 +150,20 @@ def S_mark(holder: Dict[str, Any], name: str, what: str) -> None:
 
 
 def run_case(ctx, backend: str, init: str, kinds: List[str], chooser_factory, resend_412: bool = False,
-             die_after: Optional[int] = None) -> Dict[str, Any]:
+             die_after: Optional[int] = None, conf: Optional[str] = None) -> Dict[str, Any]:
+    """conf: the name of a process-wide configuration (harness/lib/procconf.py NAMED: log levels set through the library's or
+    the application's API, the library's environment variables) the whole run is executed under; None = as the harness runs."""
+    if conf is None:
+        return _run_case(ctx, backend, init, kinds, chooser_factory, resend_412, die_after)
+    from harness.lib import procconf
+    with procconf.applied(procconf.NAMED[conf]):
+        out = _run_case(ctx, backend, init, kinds, chooser_factory, resend_412, die_after)
+    out["conf"] = conf
+    return out
+
+
+def _run_case(ctx, backend: str, init: str, kinds: List[str], chooser_factory, resend_412: bool = False,
+              die_after: Optional[int] = None) -> Dict[str, Any]:
     """resend_412 (object store only): the FIRST create-if-absent PUT of the pointer is applied, its response is lost, the
     client library re-sends it and the caller is told 412 PreconditionFailed -- a conflict with its own write."""
     import datashard
@@ -633,6 +650,7 @@ def run(ctx) -> None:
     exprs, metas, bad = [], [], []
     total = 0
     outside = [0]
+    conf_seen: Dict[str, int] = {}
     for backend, init, kinds in plans:
         # two creators of a table that does not exist yet (nor does its lock file): EVERY schedule with at most two preemptions
         full = init == "absent" and kinds == ["create", "create"]
@@ -640,13 +658,23 @@ def run(ctx) -> None:
         for k in range(2 if quick else 40):
             seed = ctx.rng.randrange(1 << 30)
             runs.append(([("random", seed)], run_case(ctx, backend, init, kinds, lambda sc, seed=seed: S.random_chooser(_r.Random(seed), 0.4))))
+        # ... and under process-wide configurations other than the default (library logger at DEBUG through its own API, through
+        # the application's root logger, ...): what the library logs must not change what it does
+        for ci, conf in enumerate(CONFS if not quick else CONFS[:2]):
+            runs.append(([], run_case(ctx, backend, init, kinds, c01.dev_chooser({}), conf=conf)))
+            if not quick or ci == 0:
+                seed = ctx.rng.randrange(1 << 30)
+                runs.append(([("random", seed)], run_case(ctx, backend, init, kinds, lambda sc, seed=seed: S.random_chooser(_r.Random(seed), 0.4), conf=conf)))
         for dev, out in runs:
             total += 1
-            ctx.count(1, (backend, init, tuple(kinds), tuple(out["schedule"])))
+            ctx.count(1, (backend, init, tuple(kinds), tuple(out["schedule"]), out.get("conf")))
+            conf_seen[out.get("conf") or "as-run"] = conf_seen.get(out.get("conf") or "as-run", 0) + 1
             why = oracle(out)
             if why:
-                ctx.violation(f"create-race:{backend}:{init}:{'+'.join(kinds)}", why,
-                              {"backend": backend, "init": init, "kinds": kinds, "deviations": list(dev), "schedule": out["schedule"]})
+                ctx.violation(f"create-race:{backend}:{init}:{'+'.join(kinds)}" + (f":conf-{out['conf']}" if out.get("conf") else ""),
+                              why + (f" [process configuration: {out['conf']}]" if out.get("conf") else ""),
+                              {"backend": backend, "init": init, "kinds": kinds, "deviations": list(dev), "schedule": out["schedule"],
+                               "conf": out.get("conf")})
             evs, _notes = project(out)
             # Outside Model/Create.v: the first appender adopted a creator's (not yet pointed) v0 through recovery and its
             # COMMIT created the pointer before the creator did.  Commits belong to C01's machine; the run is judged by
@@ -684,6 +712,7 @@ def run(ctx) -> None:
             ctx.violation(f"create-race:s3cas:absent-resend412:{'+'.join(kinds)}", why,
                           {"backend": "s3cas", "init": "absent", "kinds": kinds, "deviations": [], "schedule": out["schedule"], "resend_412": True})
     ctx.stats["schedules"] = total
+    ctx.stats["process_configurations"] = conf_seen
     try:
         vals = coqbuild.coq_eval(REQ, exprs, chunk=80)
     except RuntimeError as e:
@@ -745,7 +774,10 @@ def replay(ctx, payload) -> int:
         print("replay: no concrete case")
         return 2
     dev = c.get("deviations", [])
-    if c.get("die_after") is not None:
+    if c.get("conf"):
+        ch = (lambda sc: S.random_chooser(_r.Random(dev[0][1]), 0.4)) if dev and dev[0][0] == "random" else c01.dev_chooser({int(i): a for i, a in dev})
+        out = run_case(ctx, c["backend"], c["init"], c["kinds"], ch, conf=c["conf"])
+    elif c.get("die_after") is not None:
         out = run_case(ctx, c["backend"], c["init"], c["kinds"], c01.dev_chooser({}), die_after=c["die_after"])
     elif c.get("resend_412"):
         out = run_case(ctx, c["backend"], c["init"], c["kinds"], c01.dev_chooser({}), resend_412=True)
